@@ -55,6 +55,14 @@ type FanSpec struct {
 
 func ip(v int) *int { return &v }
 
+// optInt: the configured value, -1 when the option is absent
+func optInt(p *int) int {
+	if p == nil {
+		return -1
+	}
+	return *p
+}
+
 var objCounter atomic.Int64
 
 func uniq(prefix string) string { return fmt.Sprintf("%s%d", prefix, objCounter.Add(1)) }
@@ -333,6 +341,7 @@ func (c *Ctl) EmitInit(extra Ev) {
 		"hasPwm":  c.Fan.Supports(fans.FeaturePwmSensor),
 		"hasMode": c.Fan.Supports(fans.FeatureControlMode),
 		"gmin":    c.Fan.GetMinPwm(), "mx": c.Fan.GetMaxPwm(),
+		"cfgMin": optInt(c.Spec.CfgMin), "cfgMax": optInt(c.Spec.CfgMax),
 		"map": pairs(st.PwmMap), "n": c.Spec.N,
 		"alg": c.Spec.Alg,
 		"pwm": c.reg("pwm"), "mode": mode, "avgm": milli(c.Fan.GetRpmAvg()),
